@@ -17,8 +17,7 @@ impl RepetitionTable {
         self.index -= 1
     }
 
-    pub fn is_now_in_threefold_repetition(&mut self) -> bool {
-        let curr_hash = self.table[self.index];
+    pub fn is_now_in_threefold_repetition(&self, curr_hash: u64) -> bool {
         for h in (0..self.index).rev() {
             if self.table[h] == curr_hash {
                 return true;
